@@ -64,9 +64,13 @@ def _work(job):
         rs = rules.gen_ruleset(rng, nrules=rng.choice([15, 25, 40]), depth=rng.choice([1, 2]))
     elif kind == 'seven':
         rs = rules.gen_ruleset(rng, csize=128)
+    elif kind == 'nultail':
+        rs = rules.gen_nultail_ruleset(rng)
     else:
         rs = rules.gen_ruleset(rng)
     topt = rng.choice(tv.TABLE_OPTS) if kind != 'default' else []
+    if kind == 'nultail' and rng.random() < 0.7:
+        topt = rng.choice([['-Cfe'], ['-Cfe'], ['-CFe'], ['-Cfae']])
     r = tv.validate_one(flex, workdir, 'c01_%d' % idx, rs, topt, seed ^ 0x5a5a, budget=budget,
                         driver_timeout=dtimeout)
     r['features'] = tv.features(rs)
@@ -88,7 +92,7 @@ def run(ctx):
     discharged = common.proof_audit(ctx, THEOREMS)
     n = {'quick': 160, 'thorough': 3000}[ctx.tier]
     rng = ctx.rng('cases')
-    kinds = ['small'] * 6 + ['deep'] * 2 + ['many'] + ['seven']
+    kinds = ['small'] * 6 + ['deep'] * 2 + ['many'] + ['seven'] + ['nultail']
     budget, dtimeout = {'quick': (1200, 20), 'thorough': (30000, 400)}[ctx.tier]
     jobs = [(flex, work, i, rng.getrandbits(48), kinds[i % len(kinds)], budget, dtimeout) for i in range(n)]
     t0 = time.time()
